@@ -64,7 +64,7 @@ def thdm_tree_m2(lam, tb, m122, v2=246.21965 ** 2):
 def gauge_tachyon(t, pattern):
     """rewrite a gauge-basis THDM input so that its tree-level spectrum is tachyonic in exactly the given way (clear margins: |m^2| > (30 GeV)^2)"""
     tb = get_entry(t, "MINPAR", "3")
-    if tb is None or get_entry(t, "MASS", "25") is not None:
+    if tb is None or not (tb > 0) or not math.isfinite(tb) or get_entry(t, "MASS", "25") is not None:
         return None
     rnd = random.Random("%s|%r" % (pattern, tb))
     M = 900.0
@@ -126,6 +126,10 @@ def defects_for(fmt):
               ("invalid-yukawa-type(7)", "input", lambda t: set_entry(t, "MINPAR", "24", "7"), True),
               ("invalid-yukawa-type(0)", "input", lambda t: set_entry(t, "MINPAR", "24", "0"), True),
               ("undecidable-basis(both)", "input", lambda t: set_entry(set_entry(set_entry(t, "MINPAR", "11", "0.5"), "MASS", "25", "125"), "MASS", "35", "400"), True),
+              # mass-basis file that also gives one single gauge-basis coupling lambda_1..5, of either sign (all the others stay unset)
+              ] + [("undecidable-basis(mass basis and lambda_%d=%s)" % (k - 10, v), "input", (lambda t, k=k, v=v: (set_entry(t, "MINPAR", str(k), v) if massbasis(t) else None)), True)
+                   for k in (11, 12, 13, 14, 15) for v in ("-0.3", "0.3", "-2")] + [
+              ("undecidable-basis(mass basis and lambda_4=-0.4 and lambda_5=-0.3)", "input", lambda t: (set_entry(set_entry(t, "MINPAR", "14", "-0.4"), "MINPAR", "15", "-0.3") if massbasis(t) else None), True),
               ("mh>mH", "input", lambda t: (set_entry(set_entry(t, "MASS", "25", "600"), "MASS", "35", "300") if massbasis(t) else None), False),
               ("|sba|>1", "input", lambda t: (set_entry(t, "MINPAR", "20", "1.5") if massbasis(t) else None), False),
               ("mA<0", "input", lambda t: (set_entry(t, "MASS", "36", "-300") if massbasis(t) else None), False),
